@@ -1221,6 +1221,8 @@ class Evaluator:
                 self.safety("shape", compare("==", V.count_term(base.mask), idx.n), lineno)
                 raise Unsupported("full-length mask applied to a compressed array (line %d)" % lineno)
             raise Unsupported("indexing a compressed array (line %d)" % lineno)
+        if type(base).__name__ == "PV":
+            return base.item()
         raise Unsupported("subscript of %r (line %d)" % (base, lineno))
 
     def arr_get(self, a, idx, lineno, env):
@@ -1770,8 +1772,10 @@ class Evaluator:
         if hasattr(fn, "call"):
             return fn.call(self, args, kwargs, lineno)
         if isinstance(fn, Opaque):
-            if fn.name.startswith(("logging", "logger", "warnings")):
-                return Opaque(fn.name + "()")
+            if fn.name.startswith(("logging", "logger", "warnings")) or ".logger." in fn.name:
+                return None          # logging calls return None
+            if fn.name == "numpy.dtype":
+                return "dtype(%s)" % (getattr(args[0], "name", args[0]),)
             if fn.name in ("numpy.linalg.norm",):
                 raise Unsupported("linalg.norm")
             raise Unsupported("call of external %s (line %d)" % (fn.name, lineno))
